@@ -546,6 +546,12 @@ class ExprSynthesizer(AstVisitor[tuple[ast.expr, Type]]):
             unsolved_ty = list_type(ExistentialTypeVar.fresh("T", True, True))
             raise GuppyTypeInferenceError(TypeInferenceError(node, unsolved_ty))
         node.elts[0], el_ty = self.synthesize(node.elts[0])
+        # A generic function cannot be an element: `list[forall T. ...]` would be a
+        # higher-rank type
+        if isinstance(el_ty, FunctionType) and el_ty.parametrized:
+            raise GuppyError(
+                UnsupportedError(node.elts[0], "Polymorphic functions as list elements")
+            )
         node.elts[1:] = [self._check(el, el_ty)[0] for el in node.elts[1:]]
         return node, list_type(el_ty)
 
@@ -1298,6 +1304,12 @@ def synthesize_comprehension(
     # If there are no more generators left, we can check the list element
     if not gens:
         elt, elt_ty = ExprSynthesizer(ctx).synthesize(elt)
+        # A generic function cannot be an element: `list[forall T. ...]` would be a
+        # higher-rank type
+        if isinstance(elt_ty, FunctionType) and elt_ty.parametrized:
+            raise GuppyError(
+                UnsupportedError(elt, "Polymorphic functions as comprehension elements")
+            )
         return gens, elt, elt_ty
 
     # Check the first generator
